@@ -668,12 +668,12 @@ var driverHooks = map[string]func(eng *props.Engine, tier string, seed uint64, r
 // and compares, run by run, the digest of everything the parsers returned with the digest the worker
 // computed. A difference is a result that depends on the process it was computed in.
 func crossProcessDigests(eng *props.Engine, tier string, seed uint64, runs int, agg *doneRec) ([]*violRec, error) {
-	n := 160
+	n := 480
 	if tier == "thorough" {
 		n = 4000
 	}
 	if eng.Race {
-		n /= 2 // the race-detector build is several times slower
+		n /= 6 // the race-detector build is several times slower
 	}
 	// only runs the workers finished (they may have stopped on the wall clock)
 	have := 0
